@@ -318,14 +318,28 @@ impl TypeAddress {
                 mangle(other, &rest) == acc
             })
             .collect();
-        if clashing.is_empty() {
-            return acc;
+        let mut mangled = if clashing.is_empty() {
+            acc
+        } else {
+            clashing.push(self);
+            clashing.sort();
+            clashing.dedup();
+            let rank = clashing.iter().position(|it| *it == self).unwrap_or(0);
+            format!("{}_{}", acc, rank)
+        };
+        // the mangled identifier must not be the name of another type ("a.ts"::X next to a type called `a_ts__X`)
+        let is_taken = |candidate: &str| {
+            all_names.iter().any(|name| match &name.ty {
+                RuntypeName::EnumItem { address, .. } | RuntypeName::Address(address) => {
+                    address != self && address.name == candidate
+                }
+                RuntypeName::SemtypeRecursiveGenerated(_) | RuntypeName::BuiltIn(_) => false,
+            })
+        };
+        while is_taken(&mangled) {
+            mangled.push('_');
         }
-        clashing.push(self);
-        clashing.sort();
-        clashing.dedup();
-        let rank = clashing.iter().position(|it| *it == self).unwrap_or(0);
-        format!("{}_{}", acc, rank)
+        mangled
     }
 }
 
